@@ -61,7 +61,7 @@ PROBES = ['split_inside_crlf', 'split_inside_multibyte', 'eintr_retried', 'exoti
           'exotic_in_string', 'cr_only_file', 'unterminated_last_line', 'comment_before_eof',
           'zero_graphs', 'nbsp', 'empty_meta_value_crlf_kept', 'utf16', 'decode_error_reference',
           'yielded_prefix_nonempty', 'interleaved_iterators', 'stream_copy', 'copy_prefix_nonempty_after_read_error', 'results_annotated_by_user_code',
-          'dump_with_encoding']
+          'dump_with_encoding', 'format_sniffed_with_parse_triples']
 
 CONTAINERS = ['lines', 'lines_lf', 'lines_keep', 'gen', 'tuple', 'stringio', 'simfile', 'simfile_raw', 'simtext',
               'simpath', 'simpath_enc', 'simpath_pathlib', 'realfile', 'iterparse_lines', 'iterparse_simfile']
@@ -124,9 +124,13 @@ def plan(rng, idx, tier):
     if srng.chance(0.12):
         style['inner_blank'] = True
     if srng.chance(0.1):
-        style['leading'] = srng.pick(['\n', '\n\n', '  ', '# leading comment\n', '\t\n'])
+        style['leading'] = srng.pick(['\n', '\n\n', '  ', '# leading comment\n', '\t\n', '\ufeff', '\ufeff\n'])
     if srng.chance(0.08):
         style['trailing'] = srng.pick(['\n', '# comment at EOF', '# comment at EOF\n', '   ', 'junk'])
+    if style.get('leading', '').startswith('\ufeff') and mode != 'benign':
+        # a text that starts with U+FEFF decodes to nothing (the decoder stops at the first token that cannot
+        # start a graph) and is never read to its end: only the container comparison says anything about it
+        mode = 'benign'
     newline = srng.weighted([('LF', 4), ('CRLF', 3), ('CR', 2), ('mixed', 2)])
     crng = rng.sub('containers')
     k = 3 + crng.randrange(5)
@@ -139,11 +143,16 @@ def plan(rng, idx, tier):
         'dump_encoding': rng.sub('denc').weighted([(None, 6), ('utf-8', 1), ('utf-8-sig', 1), ('utf-16', 1), ('utf-32', 1),
                                                    ('utf-16-le', 1)]),
         'annotate_results': rng.sub('annot').chance(0.3),
+        'sniff_format': rng.sub('sniff').chance(0.2),
         'read_plan': io_plan(rng.sub('rio'), rng.sub('rio?').chance(0.75)),
         'dump': {'indent': rng.sub('d').pick([-1, -1, None, 0, 1, 2, 3, 4]),
                  'compact': rng.sub('d2').chance(0.3),
                  'plan': io_plan(rng.sub('wio'), rng.sub('wio?').chance(0.75))},
     }
+    if any(k_ == 'huge' for g_ in graphs for k_, _ in g_['meta']):
+        # 66-210 Ki characters: byte-at-a-time device reads of such a text only cost time (small texts cover them)
+        t['read_plan'] = {'chunks': [rng.sub('hugeio').pick([4096, 1000, 65536])], 'buffer_size': 8192, 'text_chunk': 8192}
+        t['dump']['plan'] = {'chunks': [4096], 'buffer_size': 8192, 'text_chunk': 8192}
     frng = rng.sub('fault')
     if mode == 'read_fault':
         t['fault'] = {'kind': frng.pick(['EIO', 'EOF']), 'frac': frng.random(),
@@ -284,6 +293,13 @@ def _execute(trace):
         res.hit('probe.decode_error_reference')
     Rt, Rtexc = _call(lambda: list(penman.iterparse(T)))
     Rtc = canon_result(Rt, Rtexc)
+    if trace.get('sniff_format'):
+        # "is this a triple conjunction? no - then it is PENMAN": format sniffing with the other parser of the
+        # library, on the very lines that the containers below are about to decode
+        _call(lambda: penman.parse_triples(T))
+        for ln in lines_plain[:3]:
+            _call(lambda: penman.parse_triples(ln))
+        res.hit('probe.format_sniffed_with_parse_triples')
     if trace.get('annotate_results'):
         # what user code does with results it owns: annotate them in place.  Every later decode of the same text
         # (all containers below) must be unaffected by that
@@ -319,7 +335,7 @@ def _execute(trace):
     # independent expectation: the generated text is well-formed, so it decodes, and to exactly as
     # many graphs as were written (the reference above is the same code and would agree with itself)
     st = trace['style']
-    if not st.get('trailing') and not st.get('leading', '').startswith('#'):
+    if not st.get('trailing') and not st.get('leading', '').startswith(('#', '\ufeff')):
         if Rexc is not None:
             res.violate('count', 'well-formed-text-rejected', text=T, error=canon_result(None, Rexc))
         elif len(R) != len(trace['graphs']):
@@ -332,7 +348,7 @@ def _execute(trace):
 
     # oracle 3: metadata stays with the graph that follows it
     if Rexc is None and len(R) == len(trace['graphs']) and not trace['style'].get('trailing') \
-            and not trace['style'].get('leading', '').startswith('#'):
+            and not trace['style'].get('leading', '').startswith(('#', '\ufeff')):
         for i, (g, spec) in enumerate(zip(R, trace['graphs'])):
             want = [[a, b] for a, b in spec.get('meta', [])]
             got = [[a, b] for a, b in g.metadata.items()]
@@ -677,11 +693,18 @@ def read_fault(trace, f, T, data, enc, model, k, res):
         if not (isinstance(lexc, OSError) and lexc.errno == errno.EIO):
             res.violate('read_fault', 'injected-EIO-did-not-surface', at=at, text=T, api='load(path)',
                         surfaced=digest.canon_exc(lexc) if lexc else None)
+    raw_ = getattr(getattr(fh, 'buffer', None), 'raw', None)
+    reached = bool(getattr(raw_, 'error_fired', True))
     try:
         fh.close()
     except Exception:
         pass
     res.event('read_fault', f['kind'], at, len(yielded), digest.canon_exc(exc) if exc else None)
+    if not reached:
+        # the decoder stopped reading before the faulty offset (it ends at the first token that cannot start a
+        # graph): the fault never happened, there is nothing to surface
+        res.hit('probe.read_fault_beyond_what_was_read')
+        return
     if yielded:
         res.hit('probe.yielded_prefix_nonempty')
     if f['kind'] == 'EIO':
